@@ -90,14 +90,18 @@ PROBES = [
     # rebound in one module is still the built-in in a module imported later
     ("module.failed.body.closure", "import \"gcreg\"; try { import \"gcfail\"; } catch err { print(err); } churn(); import \"gcother\"; churn(); print(gcreg.hooks[0]()); print(gcreg.hooks[1].get());"),
     ("module.failed.body.closure.retry", "import \"gcreg\"; try { import \"gcfail\"; } catch err { print(err); } churn(); try { import \"gcfail\"; } catch err { print(type(err)); } churn(); print(gcreg.hooks[0]());"),
+    ("module.failed.body.closure.retry.twice", "import \"gcreg\"; try { import \"gcfail\"; } catch err { print(err); } var kept = gcreg.hooks[0]; try { import \"gcfail\"; } catch err { print(type(err)); } "
+     "var pad = [1]; print(kept()); try { import \"gcfail\"; } catch err { print(type(err)); } churn(); print(kept()); print(gcreg.hooks[1].get()); print(gcreg.hooks.len());"),
     ("module.builtin.rebound.then.import", "var type = \"circle\"; var clock = [1]; var print2 = print; churn(); import \"gcshapes\"; churn(); print(gcshapes.describe(1)); print(gcshapes.describe(\"one\")); print(type);"),
     ("module.builtin.rebound.in.module", "import \"gcrebind\"; churn(); import \"gcshapes\"; churn(); print(gcshapes.describe(nil)); print(gcrebind.type);"),
     ("module.imported.only.by.failed.module", "import \"gcreg\"; try { import \"gcfail2\"; } catch err { print(err); } churn(); print(gcreg.hooks[0]());"),
 ]
 
 PROBE_MODULES = {
-    "gcreg": "var hooks = [];\n",
-    "gcfail": "import \"gcreg\";\nvar greeting = \"hello from plugin\";\nfn hook() { return greeting; }\n#[constructor(new)] class Box { fn get(self) { return greeting + \"!\"; } }\n"
+    "gcreg": "var hooks = [];\nvar attempts = 0;\n",
+    # (every load attempt gives the module's global a different content: memory of a dropped module object that a later one re-uses
+    # then shows in what the functions of the first attempt read)
+    "gcfail": "import \"gcreg\";\ngcreg.attempts = gcreg.attempts + 1;\nvar greeting = \"hello from plugin, attempt \" + String.from(gcreg.attempts);\nfn hook() { return greeting; }\n#[constructor(new)] class Box { fn get(self) { return greeting + \"!\"; } }\n"
               "gcreg.hooks.push(hook);\ngcreg.hooks.push(Box.new());\nthrow \"plugin failed\";\n",
     "gcother": "var greeting = \"I am the OTHER module\";\nvar pad = [[1], [2], [3]];\n",
     "gcshapes": "fn describe(value) { return type(value); }\n",
